@@ -65,7 +65,14 @@ fn gen_frame(r: &mut Rng) -> GenFrame {
         11 => GenFrame { bytes: le(0), kind: Kind::Zero },
         12 => {
             // oversized: announced length > 64 KiB, body present in full
-            let n = 65537 + r.below(3000) as usize;
+            // mostly just above the limit; now and then far above it (a reader that gives up draining after some
+            // fixed amount would parse the rest of the body as frames)
+            let n = match r.below(30) {
+                0 => (1usize << 20) + 1 + r.below(5000) as usize,
+                1 => (3usize << 20) + r.below(5000) as usize,
+                2 | 3 => 131072 + r.below(200000) as usize,
+                _ => 65537 + r.below(3000) as usize,
+            };
             let mut b = le(n as u32);
             // the body looks like a stream of valid frames, to expose a desynchronised reader
             let inner = frame(b"PUT t injected".to_vec(), Kind::Other).bytes;
